@@ -776,6 +776,12 @@ def c13_gen(tier, rng):
         cases.append(c13_case(seq))
     for seq in G.token_sequences_random(rng, 20000 if tier == "quick" else 300000, maxlen=10):
         cases.append(c13_case(seq))
+    # longer sequences, completely, over small alphabets (a call, an operand, parentheses, a binary and a prefix operator)
+    import itertools
+    for alpha, lens in ((["f", "1", "(", ")", "+", "-"], (5, 6)), (["f", "1", "(", ")", "+", "-", ",", "!"], (5,)), (["f", "a", "(", ")", "*", "!", ";"], (5,))):
+        for n in lens:
+            for seq in itertools.product(alpha, repeat=n):
+                cases.append(c13_case(list(seq)))
     # an operator directly after an operator, followed by two operands
     ops_all = sorted(BINARY_TOKENS) + ["-", "!", ",", ";"]
     for o1 in ops_all:
@@ -821,7 +827,7 @@ def c13_oracle(case, out, model_out):
 
 PROPS["C13"] = {
     "gen": c13_gen, "oracle": c13_oracle, "extra_props": ["C13Eval"],
-    "rule": "all token sequences of length <= 4 (quick) / 5 (thorough) over a 16-token alphabet, random sequences up to 10 tokens over the full alphabet, near misses of well-formed programs (token deleted / inserted / swapped); each is classified by an independent recogniser (parenthesis counter + operand/operator automaton with the function-application and empty-element rules) and precompiled and evaluated in an empty and a populated context; non-trivial = classified ill-formed or unbalanced",
+    "rule": "all token sequences of length <= 4 (quick) / 6 (thorough) over a 16-token alphabet, all of length 5-6 over {f 1 ( ) + -} and of length 5 over two 7/8-token alphabets, random sequences up to 10 tokens over the full alphabet, near misses of well-formed programs (token deleted / inserted / swapped); each is classified by an independent recogniser (parenthesis counter + operand/operator automaton with the function-application and empty-element rules) and precompiled and evaluated in an empty and a populated context; non-trivial = classified ill-formed or unbalanced",
     "nontrivial": lambda c, out: c[1].get("reason") is not None or not c[1].get("balanced", True),
     "exhaustive": True,
     "assumptions": ["the Python recogniser of tools/props.py is the twin of Spec/Recognizer.v; used only to search for failing inputs",
